@@ -1,1 +1,689 @@
-fn main(){}
+//! vcheck-geo C20 [quick|thorough] [--replay <file>] — geo-types conversions and the geo-traits view.
+//! Built against shapefile with the `geo-types` and `geo-traits` features.
+
+use geo_traits::{CoordTrait, LineStringTrait, MultiLineStringTrait, MultiPointTrait, PointTrait};
+use geo_types as gt;
+use proptest::prelude::*;
+use serde::{Deserialize, Serialize};
+use shapefile::{
+    Multipatch, Multipoint, MultipointM, MultipointZ, Point, PointM, PointZ, Polygon, PolygonM, PolygonZ, Polyline, PolylineM, PolylineZ,
+    Shape,
+};
+use std::convert::TryFrom;
+use std::path::PathBuf;
+use vlib::gen;
+use vlib::kinds::*;
+use vlib::model::*;
+use vlib::run::*;
+use vlib::{ensure, fail};
+
+type XY = (F, F);
+
+fn xy_of(g: &Geom) -> Vec<Vec<XY>> {
+    g.parts.iter().map(|p| p.pts.iter().map(|v| (v[0], v[1])).collect()).collect()
+}
+fn ls_xy(l: &gt::LineString<f64>) -> Vec<XY> {
+    l.0.iter().map(|c| (F::of(c.x), F::of(c.y))).collect()
+}
+fn ls_of(p: &[XY]) -> gt::LineString<f64> {
+    gt::LineString(p.iter().map(|(x, y)| gt::Coord { x: x.v(), y: y.v() }).collect())
+}
+fn up_to_reversal(a: &[XY], b: &[XY]) -> bool {
+    a == b || a.iter().rev().copied().collect::<Vec<_>>() == b
+}
+/// geo-types closes rings itself when building a Polygon: compare with that in mind
+fn closed(mut p: Vec<XY>) -> Vec<XY> {
+    if let (Some(f), Some(l)) = (p.first().copied(), p.last().copied()) {
+        if f.0.v() != l.0.v() || f.1.v() != l.1.v() {
+            p.push(f);
+        }
+    }
+    p
+}
+
+// ---------------------------------------------------------------------------------------------
+
+#[derive(Serialize, Deserialize, Debug, Clone, Hash)]
+pub enum GeoCase {
+    /// (a) shape -> geo -> shape for point / multipoint / polyline families (2D, M, Z)
+    Simple(Geom),
+    /// (a) polygon families: outer-first nesting; rings as generated (roles = kinds), `exact` = dyadic with non-zero areas
+    Poly { ty: Ty, rings: Vec<Part>, exact: bool },
+    /// (a) ring-only multipatch
+    Patch(Vec<Part>),
+    /// (b) geo -> shape -> geo
+    GeoPoint(XY),
+    GeoLine(XY, XY),
+    GeoLineString(Vec<XY>),
+    GeoMultiLineString(Vec<Vec<XY>>),
+    GeoMultiPoint(Vec<XY>),
+    /// polygons as (exterior, interiors)
+    GeoPolygons(Vec<(Vec<XY>, Vec<Vec<XY>>)>, bool),
+    /// (c) refusals: 0 = NullShape, 1 = GeometryCollection, 2 = Rect, 3 = Triangle, 4 = multipatch with strip/fan
+    Refuse(u8, Vec<Part>),
+    /// (d) geo-traits view of a point value (x, y, z, m)
+    TraitPoint(V),
+    TraitMulti(Geom),
+}
+
+pub struct Geo;
+
+fn simple_to_geo(g: &Geom) -> Result<(), Fail> {
+    let want = xy_of(g);
+    macro_rules! pt {
+        ($T:ident) => {{
+            let s = <$T as Kind>::build(g, Ctor::Plain);
+            let p: gt::Point<f64> = s.into();
+            ensure!((F::of(p.x()), F::of(p.y())) == want[0][0], "coords-changed", "{} -> geo Point changes coordinates", g.ty.name());
+            let c: gt::Coord<f64> = s.into();
+            ensure!((F::of(c.x), F::of(c.y)) == want[0][0], "coords-changed", "{} -> geo Coord changes coordinates", g.ty.name());
+            let back: Point = p.into();
+            ensure!((F::of(back.x), F::of(back.y)) == want[0][0], "roundtrip", "geo Point -> Point changes coordinates");
+            let sh: Shape = s.into();
+            match gt::Geometry::<f64>::try_from(sh) {
+                Ok(gt::Geometry::Point(p2)) => ensure!((F::of(p2.x()), F::of(p2.y())) == want[0][0], "coords-changed", "Shape -> Geometry changes coordinates"),
+                other => fail!("wrong-geometry", "Shape::{} converts to {:?}", g.ty.name(), other.map(|g| format!("{:?}", g))),
+            }
+        }};
+    }
+    macro_rules! mp {
+        ($T:ident) => {{
+            let s = <$T as Kind>::build(g, Ctor::Plain);
+            let m: gt::MultiPoint<f64> = s.clone().into();
+            let got: Vec<XY> = m.0.iter().map(|p| (F::of(p.x()), F::of(p.y()))).collect();
+            ensure!(got == want[0], "coords-changed", "{} -> MultiPoint: {:?} vs {:?}", g.ty.name(), got, want[0]);
+            let back: Multipoint = m.clone().into();
+            let v2 = back.view();
+            ensure!(xy_of(&v2) == want, "roundtrip", "MultiPoint -> Multipoint changes coordinates");
+            match gt::Geometry::<f64>::try_from(Shape::from(s)) {
+                Ok(gt::Geometry::MultiPoint(m2)) => ensure!(m2 == m, "wrong-geometry", "Shape -> Geometry differs from the direct conversion"),
+                other => fail!("wrong-geometry", "Shape::{} converts to {:?}", g.ty.name(), other.map(|g| format!("{:?}", g))),
+            }
+        }};
+    }
+    macro_rules! pl {
+        ($T:ident) => {{
+            let s = <$T as Kind>::build(g, Ctor::Plain);
+            let m: gt::MultiLineString<f64> = s.clone().into();
+            let got: Vec<Vec<XY>> = m.0.iter().map(ls_xy).collect();
+            ensure!(got == want, "coords-changed", "{} -> MultiLineString: grouping or coordinates differ: {:?} vs {:?}", g.ty.name(), got, want);
+            let back: Polyline = m.clone().into();
+            ensure!(xy_of(&back.view()) == want, "roundtrip", "MultiLineString -> Polyline changes coordinates or grouping");
+            match gt::Geometry::<f64>::try_from(Shape::from(s)) {
+                Ok(gt::Geometry::MultiLineString(m2)) => ensure!(m2 == m, "wrong-geometry", "Shape -> Geometry differs from the direct conversion"),
+                other => fail!("wrong-geometry", "Shape::{} converts to {:?}", g.ty.name(), other.map(|g| format!("{:?}", g))),
+            }
+        }};
+    }
+    match g.ty {
+        Ty::Point => pt!(Point),
+        Ty::PointM => pt!(PointM),
+        Ty::PointZ => pt!(PointZ),
+        Ty::Multipoint => mp!(Multipoint),
+        Ty::MultipointM => mp!(MultipointM),
+        Ty::MultipointZ => mp!(MultipointZ),
+        Ty::Polyline => pl!(Polyline),
+        Ty::PolylineM => pl!(PolylineM),
+        Ty::PolylineZ => pl!(PolylineZ),
+        _ => {}
+    }
+    Ok(())
+}
+
+/// Expected grouping: every Outer ring starts a polygon, following Inner rings are its holes.
+fn group(rings: &[(i32, Vec<XY>)]) -> Vec<(Vec<XY>, Vec<Vec<XY>>)> {
+    let mut out: Vec<(Vec<XY>, Vec<Vec<XY>>)> = Vec::new();
+    for (k, r) in rings {
+        if *k == OUTER {
+            out.push((r.clone(), vec![]));
+        } else if let Some(last) = out.last_mut() {
+            last.1.push(r.clone());
+        } else {
+            out.push((vec![], vec![r.clone()]));
+        }
+    }
+    out
+}
+
+fn mpoly_groups(m: &gt::MultiPolygon<f64>) -> Vec<(Vec<XY>, Vec<Vec<XY>>)> {
+    m.0.iter().map(|p| (ls_xy(p.exterior()), p.interiors().iter().map(ls_xy).collect())).collect()
+}
+
+fn poly_to_geo(ty: Ty, rings: &[Part], exact: bool, ctx: &mut Ctx) -> Result<(), Fail> {
+    let g = Geom {
+        ty,
+        parts: rings.to_vec(),
+        bbox: [F(0); 8],
+        m_present: true,
+    };
+    macro_rules! go {
+        ($T:ident) => {{
+            let s = <$T as Kind>::build(&g, Ctor::Plain);
+            let v = s.view();
+            let m: gt::MultiPolygon<f64> = s.clone().into();
+            (v, m, gt::Geometry::<f64>::try_from(Shape::from(s)))
+        }};
+    }
+    let (view, m, generic) = match ty {
+        Ty::Polygon => go!(Polygon),
+        Ty::PolygonM => go!(PolygonM),
+        _ => go!(PolygonZ),
+    };
+    match generic {
+        Ok(gt::Geometry::MultiPolygon(m2)) => ensure!(m2 == m, "wrong-geometry", "Shape -> Geometry differs from the direct conversion"),
+        other => fail!("wrong-geometry", "Shape::{} converts to {:?}", ty.name(), other.map(|g| format!("{:?}", g))),
+    }
+    // the library's own rings (closed, oriented) are what is converted
+    let lib_rings: Vec<(i32, Vec<XY>)> = view.parts.iter().map(|p| (p.kind, p.pts.iter().map(|v| (v[0], v[1])).collect())).collect();
+    let want = group(&lib_rings);
+    let got = mpoly_groups(&m);
+    ensure!(got.len() == want.len(), "grouping", "{} polygons, expected {} (one per outer ring): rings {:?}", got.len(), want.len(), lib_rings.iter().map(|r| r.0).collect::<Vec<_>>());
+    for (i, (g_, w)) in got.iter().zip(&want).enumerate() {
+        ensure!(g_.0 == closed(w.0.clone()), "coords-changed", "polygon {}: exterior {:?} vs ring {:?}", i, g_.0, w.0);
+        ensure!(g_.1.len() == w.1.len(), "grouping", "polygon {}: {} holes, expected {}", i, g_.1.len(), w.1.len());
+        for (j, (h, wh)) in g_.1.iter().zip(&w.1).enumerate() {
+            ensure!(*h == closed(wh.clone()), "coords-changed", "polygon {} hole {}: {:?} vs {:?}", i, j, h, wh);
+        }
+    }
+    if want.len() >= 2 && want.iter().skip(1).any(|w| !w.1.is_empty()) {
+        ctx.nontrivial();
+        ctx.class("hole-under-later-outer");
+    }
+    // and back: the original 2-D shape
+    let back: Polygon = m.into();
+    let bv = back.view();
+    let two_d: Vec<(i32, Vec<XY>)> = bv.parts.iter().map(|p| (p.kind, p.pts.iter().map(|v| (v[0], v[1])).collect())).collect();
+    if exact {
+        ensure!(two_d == lib_rings, "roundtrip", "shape -> geo -> shape: rings {:?} came back as {:?}", lib_rings, two_d);
+    } else {
+        ensure!(two_d.len() == lib_rings.len(), "roundtrip", "shape -> geo -> shape: {} rings came back as {}", lib_rings.len(), two_d.len());
+        for (i, (a, b)) in lib_rings.iter().zip(&two_d).enumerate() {
+            ensure!(a.0 == b.0 && up_to_reversal(&a.1, &b.1), "roundtrip", "ring {} came back as {:?} (was {:?})", i, b, a);
+        }
+    }
+    Ok(())
+}
+
+fn patch_to_geo(parts: &[Part]) -> Result<(), Fail> {
+    let mp = Multipatch::with_parts(parts.iter().map(patch_of).collect());
+    let view = mp.view();
+    let m = gt::MultiPolygon::<f64>::try_from(mp.clone()).map_err(|e| Fail::new("ring-multipatch-refused", format!("ring-only multipatch refused: {}", e)))?;
+    // OuterRing / FirstRing start a polygon, InnerRing / Ring are holes of the last one
+    let rings: Vec<(i32, Vec<XY>)> = view
+        .parts
+        .iter()
+        .map(|p| (if p.kind == 2 || p.kind == 4 { OUTER } else { INNER }, p.pts.iter().map(|v| (v[0], v[1])).collect()))
+        .collect();
+    let want = group(&rings);
+    let got = mpoly_groups(&m);
+    if rings.first().map(|r| r.0) != Some(OUTER) {
+        // hole(s) before any outer ring: the property only speaks about outer-first shapes; every ring
+        // must still come through, in order
+        let flat = |g: &[(Vec<XY>, Vec<Vec<XY>>)]| -> Vec<Vec<XY>> {
+            g.iter().flat_map(|(e, hs)| std::iter::once(e.clone()).chain(hs.iter().cloned())).filter(|r| !r.is_empty()).collect()
+        };
+        let w: Vec<Vec<XY>> = rings.iter().map(|r| closed(r.1.clone())).collect();
+        ensure!(flat(&got) == w, "coords-changed", "multipatch with a leading hole: rings {:?} became {:?}", w, flat(&got));
+        return Ok(());
+    }
+    ensure!(got.len() == want.len(), "grouping", "multipatch: {} polygons, expected {}", got.len(), want.len());
+    for (i, (g_, w)) in got.iter().zip(&want).enumerate() {
+        ensure!(g_.0 == closed(w.0.clone()), "coords-changed", "multipatch polygon {}: exterior differs", i);
+        ensure!(g_.1.len() == w.1.len() && g_.1.iter().zip(&w.1).all(|(h, wh)| *h == closed(wh.clone())), "grouping", "multipatch polygon {}: holes differ", i);
+    }
+    match gt::Geometry::<f64>::try_from(Shape::from(mp)) {
+        Ok(gt::Geometry::MultiPolygon(m2)) => ensure!(m2 == m, "wrong-geometry", "Shape::Multipatch -> Geometry differs"),
+        other => fail!("wrong-geometry", "Shape::Multipatch converts to {:?}", other.map(|g| format!("{:?}", g))),
+    }
+    Ok(())
+}
+
+fn geo_polygons(polys: &[(Vec<XY>, Vec<Vec<XY>>)], single: bool) -> Result<(), Fail> {
+    let mk = |p: &(Vec<XY>, Vec<Vec<XY>>)| gt::Polygon::new(ls_of(&p.0), p.1.iter().map(|h| ls_of(h)).collect());
+    let gp: Vec<gt::Polygon<f64>> = polys.iter().map(mk).collect();
+    // geo-types closes the rings itself: that is the reference
+    let reference = mpoly_groups(&gt::MultiPolygon(gp.clone()));
+    let shape: Polygon = if single && gp.len() == 1 {
+        let s: Polygon = gp[0].clone().into();
+        match Shape::try_from(gt::Geometry::Polygon(gp[0].clone())) {
+            Ok(Shape::Polygon(p2)) => ensure!(p2.view() == s.view(), "wrong-shape", "Geometry::Polygon -> Shape differs from the direct conversion"),
+            other => fail!("wrong-shape", "Geometry::Polygon converts to {:?}", other.map(|s| variant_ty(&s))),
+        }
+        s
+    } else {
+        let s: Polygon = gt::MultiPolygon(gp.clone()).into();
+        match Shape::try_from(gt::Geometry::MultiPolygon(gt::MultiPolygon(gp.clone()))) {
+            Ok(Shape::Polygon(p2)) => ensure!(p2.view() == s.view(), "wrong-shape", "Geometry::MultiPolygon -> Shape differs from the direct conversion"),
+            other => fail!("wrong-shape", "Geometry::MultiPolygon converts to {:?}", other.map(|s| variant_ty(&s))),
+        }
+        s
+    };
+    // M / Z targets get the same 2-D rings
+    let sm: PolygonM = gt::MultiPolygon(gp.clone()).into();
+    let sz: PolygonZ = gt::MultiPolygon(gp.clone()).into();
+    if !(single && gp.len() == 1) {
+        ensure!(xy_of(&sm.view()) == xy_of(&shape.view()) && xy_of(&sz.view()) == xy_of(&shape.view()), "wrong-shape", "PolygonM / PolygonZ from geo differ from Polygon");
+    }
+    let back: gt::MultiPolygon<f64> = shape.into();
+    let got = mpoly_groups(&back);
+    ensure!(got.len() == reference.len(), "grouping", "geo -> shape -> geo: {} polygons became {}", reference.len(), got.len());
+    for (i, (g_, r)) in got.iter().zip(&reference).enumerate() {
+        ensure!(up_to_reversal(&g_.0, &r.0), "coords-changed", "polygon {}: exterior {:?} became {:?}", i, r.0, g_.0);
+        ensure!(g_.1.len() == r.1.len(), "grouping", "polygon {}: {} holes became {}", i, r.1.len(), g_.1.len());
+        for (j, (h, rh)) in g_.1.iter().zip(&r.1).enumerate() {
+            ensure!(up_to_reversal(h, rh), "coords-changed", "polygon {} hole {}: {:?} became {:?}", i, j, rh, h);
+        }
+    }
+    Ok(())
+}
+
+fn trait_point(v: &V) -> Result<(), Fail> {
+    fn probe<C: CoordTrait<T = f64>>(name: &str, c: &C, fields: &[(geo_traits::Dimensions, Vec<F>)]) -> Result<(), Fail> {
+        let d = c.dim();
+        let n = d.size();
+        let expect = fields
+            .iter()
+            .find(|(k, _)| *k == d)
+            .map(|(_, f)| f.clone())
+            .ok_or_else(|| Fail::new("dimension", format!("{} reports dimensions {:?}", name, d)))?;
+        ensure!(expect.len() == n, "dimension", "{}: {:?} has size {}", name, d, n);
+        for i in 0..n {
+            let a = guard(|| c.nth(i)).map_err(|p| Fail::new("nth-panics", format!("{} with dim {:?} (size {}): nth({}) panics: {}", name, d, n, i, p)))?;
+            ensure!(a.map(F::of) == Some(expect[i]), "nth-wrong", "{} dim {:?}: nth({}) = {:?}, field is {:?}", name, d, i, a, expect[i]);
+            let b = guard(|| c.nth_or_panic(i)).map_err(|p| Fail::new("nth-panics", format!("{} dim {:?}: nth_or_panic({}) panics: {}", name, d, i, p)))?;
+            ensure!(F::of(b) == expect[i], "nth-wrong", "{}: nth_or_panic({}) = {:?}", name, i, b);
+            // SAFETY: i is below the reported dimension count, which is what the trait requires
+            let u = guard(|| unsafe { c.nth_unchecked(i) }).map_err(|p| Fail::new("nth-panics", format!("{}: nth_unchecked({}) panics: {}", name, i, p)))?;
+            ensure!(F::of(u) == expect[i], "nth-wrong", "{}: nth_unchecked({}) = {:?}", name, i, u);
+        }
+        let past = guard(|| c.nth(n)).map_err(|p| Fail::new("nth-panics", format!("{}: nth({}) panics: {}", name, n, p)))?;
+        ensure!(past.is_none(), "nth-wrong", "{}: nth({}) = {:?} with only {} dimensions", name, n, past, n);
+        ensure!(F::of(c.x()) == expect[0] && F::of(c.y()) == expect[1], "nth-wrong", "{}: x()/y() differ from the fields", name);
+        Ok(())
+    }
+    use geo_traits::Dimensions as D;
+    let p = Point::new(v[0].v(), v[1].v());
+    let pm = PointM::new(v[0].v(), v[1].v(), v[3].v());
+    let pz = PointZ::new(v[0].v(), v[1].v(), v[2].v(), v[3].v());
+    let f2 = vec![(D::Xy, vec![v[0], v[1]])];
+    let fm = vec![(D::Xy, vec![v[0], v[1]]), (D::Xym, vec![v[0], v[1], v[3]])];
+    let fz = vec![(D::Xyz, vec![v[0], v[1], v[2]]), (D::Xyzm, vec![v[0], v[1], v[2], v[3]])];
+    probe("Point", &p, &f2)?;
+    probe("&Point", &&p, &f2)?;
+    probe("PointM", &pm, &fm)?;
+    probe("&PointM", &&pm, &fm)?;
+    probe("PointZ", &pz, &fz)?;
+    probe("&PointZ", &&pz, &fz)?;
+    // PointTrait view
+    ensure!(PointTrait::coord(&p).is_some() && PointTrait::coord(&pm).is_some() && PointTrait::coord(&pz).is_some(), "point-trait", "coord() is None");
+    ensure!(PointTrait::dim(&pm) == CoordTrait::dim(&pm) && PointTrait::dim(&pz) == CoordTrait::dim(&pz), "dimension", "PointTrait::dim and CoordTrait::dim disagree");
+    if let Some(c) = PointTrait::coord(&pz) {
+        probe("PointZ.coord()", &c, &fz)?;
+    }
+    if let Some(c) = PointTrait::coord(&pm) {
+        probe("PointM.coord()", &c, &fm)?;
+    }
+    Ok(())
+}
+
+fn trait_multi(g: &Geom) -> Result<(), Fail> {
+    let want = xy_of(g);
+    macro_rules! mp {
+        ($T:ident) => {{
+            let s = <$T as Kind>::build(g, Ctor::Plain);
+            ensure!(MultiPointTrait::num_points(&s) == want[0].len(), "trait-count", "num_points {} vs {}", MultiPointTrait::num_points(&s), want[0].len());
+            let got: Vec<XY> = MultiPointTrait::points(&s).map(|p| { let c = PointTrait::coord(&p).unwrap(); (F::of(CoordTrait::x(&c)), F::of(CoordTrait::y(&c))) }).collect();
+            ensure!(got == want[0], "trait-points", "MultiPointTrait enumerates {:?}, accessor has {:?}", got, want[0]);
+        }};
+    }
+    macro_rules! pl {
+        ($T:ident) => {{
+            let s = <$T as Kind>::build(g, Ctor::Plain);
+            ensure!(MultiLineStringTrait::num_line_strings(&s) == want.len(), "trait-count", "num_line_strings {} vs {}", MultiLineStringTrait::num_line_strings(&s), want.len());
+            let got: Vec<Vec<XY>> = MultiLineStringTrait::line_strings(&s)
+                .map(|l| LineStringTrait::coords(&l).map(|c| (F::of(CoordTrait::x(&c)), F::of(CoordTrait::y(&c)))).collect())
+                .collect();
+            ensure!(got == want, "trait-points", "MultiLineStringTrait enumerates {:?}, accessor has {:?}", got, want);
+        }};
+    }
+    match g.ty {
+        Ty::Multipoint => mp!(Multipoint),
+        Ty::MultipointM => mp!(MultipointM),
+        Ty::MultipointZ => mp!(MultipointZ),
+        Ty::Polyline => pl!(Polyline),
+        Ty::PolylineM => pl!(PolylineM),
+        Ty::PolylineZ => pl!(PolylineZ),
+        _ => {}
+    }
+    Ok(())
+}
+
+impl Prop for Geo {
+    type Case = GeoCase;
+    fn name() -> &'static str {
+        "geo"
+    }
+    fn rule() -> &'static str {
+        "proptest over four streams: (a) shapes of the point / multipoint / polyline families (2D, M, Z; any parts) and outer-first \
+         polygons with generated nesting (several outers each followed by 0-3 holes; exact dyadic domain with non-zero areas, plus a \
+         degenerate stream compared up to reversal) and ring-only multipatches -> geo-types: same X/Y bit patterns in order, same \
+         grouping (line per part; exterior + following holes per outer), and back to the original 2-D shape; (b) geo-types Point, Line, \
+         LineString (>=2 coords), MultiLineString, Polygon, MultiPolygon, MultiPoint with non-empty components -> shape -> geo: same \
+         coordinates and grouping up to ring reversal and geo-types' own ring closing; (c) NullShape, strip / fan multipatches, \
+         GeometryCollection, Rect, Triangle are refused with Err, never a panic; (d) geo-traits: for Point / PointM / PointZ values \
+         (measures from {real, NO_DATA, below, next above, +-inf, NaN}) every index below dim().size() is readable through nth, \
+         nth_or_panic, nth_unchecked and returns the matching field, nth(size) is None; multipoint / polyline trait views enumerate \
+         the accessor's points. Non-trivial: a polygon with >=2 outers and a hole under a later outer, or a measure on the threshold"
+    }
+    fn check(c: &GeoCase, ctx: &mut Ctx) -> Result<(), Fail> {
+        match c {
+            GeoCase::Simple(g) => {
+                ctx.class("a:simple");
+                simple_to_geo(g)
+            }
+            GeoCase::Poly { ty, rings, exact } => {
+                ctx.class(if *exact { "a:polygon-exact" } else { "a:polygon-degenerate" });
+                poly_to_geo(*ty, rings, *exact, ctx)
+            }
+            GeoCase::Patch(p) => {
+                ctx.class("a:ring-multipatch");
+                patch_to_geo(p)
+            }
+            GeoCase::GeoPoint(p) => {
+                ctx.class("b:point");
+                let g = gt::Point::new(p.0.v(), p.1.v());
+                let s: Point = g.into();
+                ensure!((F::of(s.x), F::of(s.y)) == *p, "coords-changed", "geo Point -> Point");
+                let m: PointM = g.into();
+                let z: PointZ = g.into();
+                ensure!(F::of(m.x) == p.0 && F::of(m.y) == p.1 && F::of(z.x) == p.0 && F::of(z.y) == p.1, "coords-changed", "geo Point -> PointM/PointZ");
+                match Shape::try_from(gt::Geometry::Point(g)) {
+                    Ok(Shape::Point(q)) => ensure!((F::of(q.x), F::of(q.y)) == *p, "coords-changed", "Geometry::Point -> Shape"),
+                    other => fail!("wrong-shape", "Geometry::Point converts to {:?}", other.map(|s| variant_ty(&s))),
+                }
+                let back: gt::Point<f64> = s.into();
+                ensure!((F::of(back.x()), F::of(back.y())) == *p, "roundtrip", "geo Point -> Point -> geo Point");
+                Ok(())
+            }
+            GeoCase::GeoLine(a, b) => {
+                ctx.class("b:line");
+                let l = gt::Line::new(gt::Coord { x: a.0.v(), y: a.1.v() }, gt::Coord { x: b.0.v(), y: b.1.v() });
+                let s: Polyline = l.into();
+                ensure!(xy_of(&s.view()) == vec![vec![*a, *b]], "coords-changed", "geo Line -> Polyline: {:?}", xy_of(&s.view()));
+                match Shape::try_from(gt::Geometry::Line(l)) {
+                    Ok(Shape::Polyline(q)) => ensure!(q.view() == s.view(), "wrong-shape", "Geometry::Line -> Shape differs"),
+                    other => fail!("wrong-shape", "Geometry::Line converts to {:?}", other.map(|s| variant_ty(&s))),
+                }
+                let back: gt::MultiLineString<f64> = s.into();
+                ensure!(back.0.len() == 1 && ls_xy(&back.0[0]) == vec![*a, *b], "roundtrip", "Line -> Polyline -> MultiLineString");
+                Ok(())
+            }
+            GeoCase::GeoLineString(p) => {
+                ctx.class("b:linestring");
+                let l = ls_of(p);
+                let s: Polyline = l.clone().into();
+                ensure!(xy_of(&s.view()) == vec![p.clone()], "coords-changed", "LineString -> Polyline");
+                match Shape::try_from(gt::Geometry::LineString(l)) {
+                    Ok(Shape::Polyline(q)) => ensure!(q.view() == s.view(), "wrong-shape", "Geometry::LineString -> Shape differs"),
+                    other => fail!("wrong-shape", "Geometry::LineString converts to {:?}", other.map(|s| variant_ty(&s))),
+                }
+                let back: gt::MultiLineString<f64> = s.into();
+                ensure!(back.0.len() == 1 && ls_xy(&back.0[0]) == *p, "roundtrip", "LineString -> Polyline -> MultiLineString");
+                Ok(())
+            }
+            GeoCase::GeoMultiLineString(ps) => {
+                ctx.class("b:multilinestring");
+                let m = gt::MultiLineString(ps.iter().map(|p| ls_of(p)).collect());
+                let s: Polyline = m.clone().into();
+                ensure!(xy_of(&s.view()) == *ps, "coords-changed", "MultiLineString -> Polyline");
+                let sz: PolylineZ = m.clone().into();
+                let sm: PolylineM = m.clone().into();
+                ensure!(xy_of(&sz.view()) == *ps && xy_of(&sm.view()) == *ps, "coords-changed", "MultiLineString -> PolylineM/Z");
+                match Shape::try_from(gt::Geometry::MultiLineString(m.clone())) {
+                    Ok(Shape::Polyline(q)) => ensure!(q.view() == s.view(), "wrong-shape", "Geometry::MultiLineString -> Shape differs"),
+                    other => fail!("wrong-shape", "Geometry::MultiLineString converts to {:?}", other.map(|s| variant_ty(&s))),
+                }
+                let back: gt::MultiLineString<f64> = s.into();
+                ensure!(back == m || back.0.iter().map(ls_xy).collect::<Vec<_>>() == *ps, "roundtrip", "MultiLineString -> Polyline -> MultiLineString");
+                Ok(())
+            }
+            GeoCase::GeoMultiPoint(p) => {
+                ctx.class("b:multipoint");
+                let m = gt::MultiPoint(p.iter().map(|(x, y)| gt::Point::new(x.v(), y.v())).collect());
+                let s: Multipoint = m.clone().into();
+                ensure!(xy_of(&s.view()) == vec![p.clone()], "coords-changed", "MultiPoint -> Multipoint");
+                match Shape::try_from(gt::Geometry::MultiPoint(m)) {
+                    Ok(Shape::Multipoint(q)) => ensure!(q.view() == s.view(), "wrong-shape", "Geometry::MultiPoint -> Shape differs"),
+                    other => fail!("wrong-shape", "Geometry::MultiPoint converts to {:?}", other.map(|s| variant_ty(&s))),
+                }
+                let back: gt::MultiPoint<f64> = s.into();
+                ensure!(back.0.iter().map(|q| (F::of(q.x()), F::of(q.y()))).collect::<Vec<_>>() == *p, "roundtrip", "MultiPoint round trip");
+                Ok(())
+            }
+            GeoCase::GeoPolygons(polys, single) => {
+                ctx.class("b:polygons");
+                geo_polygons(polys, *single)
+            }
+            GeoCase::Refuse(k, parts) => {
+                ctx.class("c:refusal");
+                let r = guard(|| -> Result<(), Fail> {
+                    match k {
+                        0 => ensure!(gt::Geometry::<f64>::try_from(Shape::NullShape).is_err(), "not-refused", "NullShape converts to a Geometry"),
+                        1 => ensure!(
+                            Shape::try_from(gt::Geometry::GeometryCollection(gt::GeometryCollection(vec![gt::Geometry::Point(gt::Point::new(1.0, 2.0))]))).is_err(),
+                            "not-refused",
+                            "GeometryCollection converts to a Shape"
+                        ),
+                        2 => ensure!(
+                            Shape::try_from(gt::Geometry::Rect(gt::Rect::new(gt::Coord { x: 0.0, y: 0.0 }, gt::Coord { x: 1.0, y: 2.0 }))).is_err(),
+                            "not-refused",
+                            "Rect converts to a Shape"
+                        ),
+                        3 => ensure!(
+                            Shape::try_from(gt::Geometry::Triangle(gt::Triangle::new(gt::Coord { x: 0.0, y: 0.0 }, gt::Coord { x: 1.0, y: 2.0 }, gt::Coord { x: 2.0, y: 0.0 }))).is_err(),
+                            "not-refused",
+                            "Triangle converts to a Shape"
+                        ),
+                        _ => {
+                            let mp = Multipatch::with_parts(parts.iter().map(patch_of).collect());
+                            let has_tri = parts.iter().any(|p| p.kind < 2);
+                            let direct = gt::MultiPolygon::<f64>::try_from(mp.clone());
+                            let generic = gt::Geometry::<f64>::try_from(Shape::from(mp));
+                            ensure!(direct.is_err() == has_tri && generic.is_err() == has_tri, "not-refused", "multipatch with strip/fan: direct {:?}, generic {:?}", direct.is_ok(), generic.is_ok());
+                        }
+                    }
+                    Ok(())
+                });
+                match r {
+                    Ok(r) => r,
+                    Err(p) => fail!("refusal-panics", "conversion panics instead of returning Err: {}", p),
+                }
+            }
+            GeoCase::TraitPoint(v) => {
+                ctx.class("d:trait-point");
+                let m = v[3].v();
+                if m.is_nan() || m <= NO_DATA || m == gen::next_up(NO_DATA) {
+                    ctx.nontrivial();
+                    ctx.class("d:threshold-measure");
+                }
+                trait_point(v)
+            }
+            GeoCase::TraitMulti(g) => {
+                ctx.class("d:trait-multi");
+                trait_multi(g)
+            }
+        }
+    }
+}
+
+fn xy(dy: bool) -> BoxedStrategy<XY> {
+    let f = if dy { gen::f_dyadic() } else { gen::f_nonnan() };
+    (f.clone(), f).boxed()
+}
+
+/// A clockwise (outer) or counter-clockwise (inner) axis-aligned rectangle-ish ring with non-zero area on the dyadic grid.
+fn exact_ring(kind: i32) -> BoxedStrategy<Part> {
+    (-1000i32..1000, -1000i32..1000, 1i32..200, 1i32..200, any::<bool>(), any::<bool>())
+        .prop_map(move |(x, y, w, h, rev, close)| {
+            let s = 1.0 / 256.0;
+            let (x0, y0, x1, y1) = (x as f64 * s, y as f64 * s, (x + w) as f64 * s, (y + h) as f64 * s);
+            // clockwise: up, right, down, left
+            let mut p = vec![v4(x0, y0, 0.0, 0.0), v4(x0, y1, 0.0, 0.0), v4(x1, y1, 0.0, 0.0), v4(x1, y0, 0.0, 0.0)];
+            if close {
+                p.push(p[0]);
+            }
+            if rev {
+                p.reverse();
+            }
+            Part { kind, pts: p }
+        })
+        .boxed()
+}
+
+fn nested_rings(exact: bool) -> BoxedStrategy<Vec<Part>> {
+    let ring = move |k: i32| -> BoxedStrategy<Part> {
+        if exact {
+            exact_ring(k)
+        } else {
+            // degenerate stream: collinear or tiny rings on arbitrary doubles
+            (proptest::collection::vec(xy(false), 1..5), any::<bool>())
+                .prop_map(move |(p, flat)| {
+                    let y0 = p[0].1;
+                    Part {
+                        kind: k,
+                        pts: p.iter().map(|(x, y)| [*x, if flat { y0 } else { *y }, F(0), F(0)]).collect(),
+                    }
+                })
+                .boxed()
+        }
+    };
+    proptest::collection::vec((ring(OUTER), proptest::collection::vec(ring(INNER), 0..=3)), 1..=4)
+        .prop_map(|groups| {
+            let mut v = Vec::new();
+            for (o, hs) in groups {
+                v.push(o);
+                v.extend(hs);
+            }
+            v
+        })
+        .boxed()
+}
+
+impl RandomProp for Geo {
+    fn strategy(_env: &Env) -> BoxedStrategy<GeoCase> {
+        let simple_ty = prop_oneof![
+            Just(Ty::Point),
+            Just(Ty::PointM),
+            Just(Ty::PointZ),
+            Just(Ty::Multipoint),
+            Just(Ty::MultipointM),
+            Just(Ty::MultipointZ),
+            Just(Ty::Polyline),
+            Just(Ty::PolylineM),
+            Just(Ty::PolylineZ)
+        ];
+        let cfg = gen::GenCfg::new(gen::Profile::NonNan, true, 5, 8);
+        let simple = simple_ty.clone().prop_flat_map(move |t| gen::geom(t, cfg)).prop_map(GeoCase::Simple);
+        let poly_ty = prop_oneof![Just(Ty::Polygon), Just(Ty::PolygonM), Just(Ty::PolygonZ)];
+        let poly = (poly_ty, any::<bool>()).prop_flat_map(|(ty, exact)| {
+            nested_rings(exact).prop_map(move |mut rings| {
+                // M / Z values ride along
+                for r in rings.iter_mut() {
+                    for (i, v) in r.pts.iter_mut().enumerate() {
+                        if ty.has_z() {
+                            v[2] = F::of(i as f64);
+                        }
+                        if ty.carries_m() {
+                            v[3] = F::of(-(i as f64));
+                        }
+                    }
+                }
+                GeoCase::Poly { ty, rings, exact }
+            })
+        });
+        let patch_kinds = prop_oneof![Just(2i32), Just(3i32), Just(4i32), Just(5i32)];
+        let patch = proptest::collection::vec((patch_kinds, proptest::collection::vec(gen::vertex(Ty::Multipatch, cfg), 1..6)).prop_map(|(k, p)| Part { kind: k, pts: p }), 1..6)
+            .prop_map(GeoCase::Patch);
+        let gpoly = (proptest::collection::vec((proptest::collection::vec(xy(true), 1..7), proptest::collection::vec(proptest::collection::vec(xy(true), 1..6), 0..3)), 1..4), any::<bool>())
+            .prop_map(|(p, s)| GeoCase::GeoPolygons(p, s));
+        let gpoly_any = (proptest::collection::vec((proptest::collection::vec(xy(false), 1..7), proptest::collection::vec(proptest::collection::vec(xy(false), 1..6), 0..3)), 1..4), any::<bool>())
+            .prop_map(|(p, s)| GeoCase::GeoPolygons(p, s));
+        let any_kinds = 0i32..=5;
+        let refuse = (0u8..5, proptest::collection::vec((any_kinds, proptest::collection::vec(gen::vertex(Ty::Multipatch, cfg), 1..5)).prop_map(|(k, p)| Part { kind: k, pts: p }), 1..5))
+            .prop_map(|(k, p)| GeoCase::Refuse(k, p));
+        let tp = (gen::f_nonnan(), gen::f_nonnan(), gen::f_z(gen::Profile::NonNan, true), gen::f_measure(gen::Profile::Small, true)).prop_map(|(x, y, z, m)| GeoCase::TraitPoint([x, y, z, m]));
+        let tm = prop_oneof![Just(Ty::Multipoint), Just(Ty::MultipointM), Just(Ty::MultipointZ), Just(Ty::Polyline), Just(Ty::PolylineM), Just(Ty::PolylineZ)]
+            .prop_flat_map(move |t| gen::geom(t, cfg))
+            .prop_map(GeoCase::TraitMulti);
+        prop_oneof![
+            3 => simple,
+            4 => poly,
+            2 => patch,
+            1 => xy(false).prop_map(GeoCase::GeoPoint),
+            1 => (xy(false), xy(false)).prop_map(|(a, b)| GeoCase::GeoLine(a, b)),
+            1 => proptest::collection::vec(xy(false), 2..8).prop_map(GeoCase::GeoLineString),
+            1 => proptest::collection::vec(proptest::collection::vec(xy(false), 2..6), 1..5).prop_map(GeoCase::GeoMultiLineString),
+            1 => proptest::collection::vec(xy(false), 1..8).prop_map(GeoCase::GeoMultiPoint),
+            2 => gpoly,
+            1 => gpoly_any,
+            1 => refuse,
+            3 => tp,
+            1 => tm,
+        ]
+        .boxed()
+    }
+    fn cases(env: &Env) -> u64 {
+        env.n(60_000, 4_000_000)
+    }
+}
+
+fn main() {
+    let args: Vec<String> = std::env::args().collect();
+    if args.len() < 2 || args[1] != "C20" {
+        eprintln!("usage: vcheck-geo C20 [quick|thorough] [--replay <file>]");
+        std::process::exit(2);
+    }
+    let mut tier = match std::env::var("VERIF_TIER").ok().as_deref() {
+        Some("thorough") => Tier::Thorough,
+        _ => Tier::Quick,
+    };
+    let mut replay: Option<PathBuf> = None;
+    let mut i = 2;
+    while i < args.len() {
+        match args[i].as_str() {
+            "quick" => tier = Tier::Quick,
+            "thorough" => tier = Tier::Thorough,
+            "--tier" => {
+                i += 1;
+                if args.get(i).map(|s| s.as_str()) == Some("thorough") {
+                    tier = Tier::Thorough
+                }
+            }
+            "--replay" => {
+                i += 1;
+                replay = args.get(i).map(PathBuf::from);
+            }
+            o => {
+                eprintln!("unknown argument {}", o);
+                std::process::exit(2);
+            }
+        }
+        i += 1;
+    }
+    install_panic_hook();
+    let subs: Vec<Box<dyn SubCheck>> = vec![random::<Geo>()];
+    let code = match replay {
+        Some(p) => replay_main("C20", &p, subs),
+        None => run_property(
+            "C20",
+            "exploration",
+            &Env::from_env(tier),
+            subs,
+            &[
+                "ring orientation asserted only where the shoelace sum is exact and non-zero; other rings compared up to full reversal",
+                "geo-types' own normalisation (Polygon::new closes rings) is taken as the reference for the geo side",
+            ],
+        ),
+    };
+    std::process::exit(code);
+}
